@@ -10,6 +10,8 @@ VERIF = os.path.dirname(os.path.dirname(os.path.abspath(__file__)))
 LEAN_DIR = os.environ.get("VERIF_LEAN_DIR") or os.path.join(VERIF, "lean")  # override: development copies only
 
 # the user cache dir must be redirected *before* ceos_alos2 is imported (cache_root is computed at import)
+# a process whose filesystem encoding is ASCII (LC_ALL=C without UTF-8 mode) cannot even NAME a non-ASCII directory
+FS_ASCII = __import__("sys").getfilesystemencoding().lower().replace("_", "-") in ("ascii", "ansi-x3.4-1968", "us-ascii", "646")
 SCRATCH = tempfile.mkdtemp(prefix="alos2-verif-")
 os.environ["XDG_CACHE_HOME"] = os.path.join(SCRATCH, "xdg-cache")
 os.makedirs(os.environ["XDG_CACHE_HOME"], exist_ok=True)
